@@ -252,6 +252,10 @@ def shards(tier: str):
     for kind, via, maxsize in deep:
         for pre in itertools.product(range(3), repeat=2 if quick else 3):
             add(f"proto/{kind}/K{K}/{via}/m{maxsize}/pre{''.join(map(str, pre))}", dict(N=N, K=K, kind=kind, maxsize=maxsize, via=via, prefix=list(pre)), cost=9 ** (K - len(pre)) * 3)
+    # "... or a request handler's yielded timeout": the stream server's request receivers (scenario shared with C15)
+    for path in ("copy", "buf"):
+        for pre in range(3):
+            out.append({"name": f"server/ginf-t0/{path}/pre{pre}", "scenario": "props.c15:serve", "params": dict(frames=3, K=4 if quick else 6, path=path, per_gen=0, timeout=0, prefix=[pre]), "budget": B, "cost": 300, "per_path_timeout": 30})
     for path in ("copy", "buf"):
         for via in ("cancel", "scope"):
             for pre in itertools.product(range(3), repeat=1):
